@@ -44,5 +44,12 @@ pub fn autoplay(millis: u64) {
             None => break,
         };
         game.push_history(next_move);
+
+        // Same limit as the UCI interface: the game's state stack holds 512 entries
+        // and the search needs room on top of the game itself
+        if game.len() >= 400 {
+            println!("Game became too long, stopping");
+            break;
+        }
     }
 }
